@@ -8,6 +8,8 @@ from hypothesis import strategies as st
 from vlib import treg
 from vlib.core import Case, Facet, Refused, Violation
 
+# thorough-tier budgets of every facet are multiplied by this factor (sized for ~5-8 min on 16 cores)
+THOROUGH_SCALE = 2
 LEVEL = "exploration"
 RULE = ("spec = transform spec from the registry (every shipped stochastic leaf class with constructor-accepted parameters, "
         "compositions up to depth 3 of compose / random-apply / patchwise / scheduled, ready-made kappadata.common pipelines) + "
